@@ -181,21 +181,36 @@ class SolveScen(Scen):
     functional = "solve"
     kinds = ("dense", "mfree")
 
-    def __init__(self, kind, vseed, withE=False):
+    def __init__(self, kind, vseed, withE=False, bscale=None, withM=False):
         super().__init__(kind, vseed)
         g = self.g
+        ncols = 3 if withM else 2       # with M: as many columns as rows (layouts that only work for 1 column or
+        #                                 only fail for ncols != nrows are visible)
         self.a = _leaf(spd(3, 3.0, g=g))
-        self.B = _leaf(randn((3, 2), g=g))
-        self.W = randn((3, 2), g=g)
-        self.withE = withE
+        self.B = _leaf(randn((3, ncols), g=g) * (1.0 if bscale is None else bscale))
+        self.W = randn((3, ncols), g=g)
+        self.withE = withE or withM
         self.leaves = [self.a, self.B]
-        if withE:
-            self.E = _leaf(torch.tensor([-0.5, 0.3], dtype=DT))
+        if self.withE:
+            self.E = _leaf(torch.tensor([-0.5, 0.3, -0.2][:ncols], dtype=DT))
             self.leaves.append(self.E)
         else:
             self.E = None
-        self.kappa = 3.0 / (1.0 - 0.3) if withE else 3.0
+        self.m = None
+        if withM:
+            self.m = _leaf(spd(3, 2.0, g=g))
+            self.leaves.append(self.m)
+        self.kappa = (3.0 / (1.0 - 0.3) if self.withE else 3.0) * (4.0 if withM else 1.0)
         self.last_op = None
+
+    def mop(self):
+        if self.m is None:
+            return None
+        s = _sym(self.m)
+        op = LinearOperator.m(s, is_hermitian=True) if self.kind == "dense" else MFreeOp(s)
+        if self.track:
+            self.last_mop = op
+        return op
 
     def op(self):
         s = _sym(self.a)
@@ -206,7 +221,7 @@ class SolveScen(Scen):
 
     def call(self, method, fwd, bck):
         self.seed()
-        return (xitorch.linalg.solve(self.op(), self.B, self.E, None, bck_options=bck, method=method, **fwd),)
+        return (xitorch.linalg.solve(self.op(), self.B, self.E, self.mop(), bck_options=bck, method=method, **fwd),)
 
     def loss(self, outs):
         x = outs[0]
@@ -218,7 +233,7 @@ class SolveScen(Scen):
                 am = A.fullmatrix()
                 if E is None:
                     return torch.linalg.solve(am, B).detach()
-                eye = torch.eye(am.shape[-1], dtype=am.dtype)
+                eye = torch.eye(am.shape[-1], dtype=am.dtype) if M is None else M.fullmatrix()
                 cols = [torch.linalg.solve(am - E[c] * eye, B[:, c]) for c in range(B.shape[-1])]
                 return torch.stack(cols, dim=-1).detach()
         return closed_solve
@@ -246,7 +261,7 @@ class SolveScen(Scen):
             p.append("B-differs")
         if (self.E is None) != (args[2] is None) or (self.E is not None and not _teq(args[2], self.E)):
             p.append("E-differs")
-        if args[3] is not None:
+        if (self.m is None) != (args[3] is None) or (self.m is not None and args[3] is not self.last_mop):
             p.append("M-differs")
         return p
 
